@@ -1,7 +1,7 @@
 (* C15 — the reviewed policy the generated access table is checked against.
    Hand-written; every entry carries its justification.  Keep it SHORT: an entry here removes
    accesses from the claim `C15_race_free`. *)
-From SG Require Import Base.Prelude Model.Lockset Model.RuleSwitch.
+From SG Require Import Base.Prelude Model.Lockset Model.RuleSwitch Model.LocksetRegions.
 Local Open Scope string_scope.
 
 Definition whitelist : whitelist := [
@@ -53,3 +53,16 @@ Definition premise_exempt : list string := [
   "outlier.(Slot).Check";
   "outlier.(MetricStatSlot).OnCompleted"
 ].
+
+(* unlock discipline (Model/LocksetRegions.v): a lock region that encloses a possibly-panicking
+   call is closed by a deferred Unlock, unless no analysed function recovers a panic raised there
+   (then the panic leaves the public API, which the dynamic leg reports under the "no panics"
+   clause).  Possibly-panicking = call of a function value, interface method call, explicit
+   panic, or a static call outside the analysed packages other than the prefixes below. *)
+Definition region_policy : region_policy := mkRP
+  [ (* the library's own logging front end and clock / float helpers; a user logger that panics
+       is outside the claim *)
+    "logging."; "util.";
+    (* error construction and formatting (fmt recovers panics of String/Error methods itself) *)
+    "errors."; "fmt."; "math." ]
+  [ (* no function of the analysed packages returns holding a lock it acquired *) ].
